@@ -303,14 +303,38 @@ def check(ctx):
                f"{fmt(want)}", key=f"C15.3:{rule_key}:{pname}")
     for e in step_events["downsample"]:
         wired("downsample", e, "num_poses", A("downsample"), "downsample")
-    for e in step_events["motion_filter"]:
-        mf = A("motion_filter")
-        wired("motion_filter", e, "distance_threshold",
-              tm.sub(mf, const(0)), "motion filter")
-        wired("motion_filter", e, "angle_threshold", tm.sub(mf, const(1)),
-              "motion filter")
-        wired("motion_filter", e, "degrees", const(True),
-              "motion filter (CLI documents degrees)")
+    # motion filter: decided end to end (see lib.motion_filter_probe) — for
+    # every call, of the given trajectories and of the reference, the filter
+    # compares the path with args.motion_filter[0] and the rotation angle
+    # with args.motion_filter[1] taken as degrees, whatever the signatures
+    import math
+    from ..lib import motion_filter_probe
+    mf = A("motion_filter")
+    probe = motion_filter_probe(
+        prog, f, lambda e: _callee(e) == TP + "motion_filter",
+        tm.sub(mf, const(0)), tm.sub(mf, const(1)))
+    for k, (e, d_, a_) in enumerate(probe):
+        if d_ is None or a_ is None:
+            ctx.undecidable("C15.3", e, "motion_filter: thresholds compared "
+                            "inside the filter not found / not evaluable "
+                            "(unknown idiom)")
+            continue
+        okd = abs(d_ - 1.0) < 1e-12
+        oka = abs(a_ - math.radians(1.0)) < 1e-12
+        ctx.ob("C15.3", e, okd,
+               "motion_filter: distance_threshold <- args.motion_filter[0] "
+               "(meters)" if okd else
+               f"motion_filter: for `--motion_filter 1 1` the path is "
+               f"compared with {d_:g} m", key="C15.3:motion_filter:"
+               "distance_threshold")
+        ctx.ob("C15.3", e, oka,
+               "motion_filter: angle_threshold <- args.motion_filter[1], "
+               "converted from degrees exactly once" if oka else
+               f"motion_filter: for `--motion_filter 1 1` the filter behind "
+               f"{fmt(e.data.get('recv'))[:50]}.motion_filter compares the "
+               f"rotation angle with {a_:.6g} rad — expected "
+               f"{math.radians(1.0):.6g} rad (1 degree)",
+               key="C15.3:motion_filter:degrees")
     for e in step_events["t_offset"]:
         ok = e.data["value"] is A("t_offset") and e.data["op"] == "Add"
         ctx.ob("C15.3", e, ok, "time offset: timestamps += args.t_offset"
